@@ -34,21 +34,39 @@ func init() {
 			fail("communicator.go AcceptConnection: `if err != nil` after NewServerConnection not found")
 			return
 		}
+		// Calls into functions of the package are followed (two levels, parameters bound to the arguments): what the
+		// helper does counts as done in the branch, so a named predicate for the error-text test adds nothing and a
+		// read or wait moved into a helper is still listed.
 		var calls []string
 		closes := false
-		ast.Inspect(branch, func(n ast.Node) bool {
-			if c, ok := n.(*ast.CallExpr); ok {
-				name := src(c.Fun)
-				switch {
-				case strings.HasPrefix(name, "log."), name == "strings.Contains", name == "err.Error":
-				case (name == "streams.TryClose" || name == "streams.LogClose") && len(c.Args) == 1 && src(c.Args[0]) == "conn", name == "conn.Close":
-					closes = true
-				default:
-					calls = append(calls, name)
+		idx := pkgFuncIndex14("internal/server")
+		var walk func(body ast.Node, bd bind14, encl *ast.FuncDecl, depth int)
+		walk = func(body ast.Node, bd bind14, encl *ast.FuncDecl, depth int) {
+			ast.Inspect(body, func(n ast.Node) bool {
+				if c, ok := n.(*ast.CallExpr); ok {
+					name := src(c.Fun)
+					isErrText := name == "err.Error"
+					if se, ok := c.Fun.(*ast.SelectorExpr); ok && se.Sel.Name == "Error" && len(c.Args) == 0 && bd.of(src(se.X)) == "err" {
+						isErrText = true
+					}
+					switch {
+					case strings.HasPrefix(name, "log."), name == "strings.Contains", isErrText:
+					case (name == "streams.TryClose" || name == "streams.LogClose") && len(c.Args) == 1 && bd.of(src(c.Args[0])) == "conn":
+						closes = true
+					case strings.HasSuffix(name, ".Close") && len(c.Args) == 0 && bd.of(strings.TrimSuffix(name, ".Close")) == "conn":
+						closes = true
+					default:
+						if callee := resolveCall14(idx, c, encl); callee != nil && callee != encl && depth < 2 {
+							walk(callee.Body, bindCall14(bd, c, callee), callee, depth+1)
+						} else {
+							calls = append(calls, name)
+						}
+					}
 				}
-			}
-			return true
-		})
+				return true
+			})
+		}
+		walk(branch, bind14{}, fd, 0)
 		fmt.Fprintf(b, "/-- communicator.go AcceptConnection, branch taken when the session handshake failed: it closes the connection -/\ndef refusalCloses : Bool := %v\n\n", closes)
 		fmt.Fprintf(b, "/-- … and the calls in that branch other than logging, the error-text test and the close itself -/\ndef refusalOtherCalls : List String := %s\n\n", leanStrList14(calls))
 	})
